@@ -4,5 +4,6 @@ CONSTANTS
   MaxSpecial = 0
   OpsUsed = {"*", "/", "%", "&", "+", "-", "|", "^", "=", "!=", "<>", "<", "<=", ">", ">=", "=~", "!~", "AND", "OR"}
   SubOps = {"*"}
+  Nest = {1}
 INVARIANTS Agree Fold ReparseStable
 CHECK_DEADLOCK FALSE
